@@ -40,6 +40,8 @@ def rules(ctx):
     C13.c135(ctx)
     from . import C05
     C05.c053(ctx)   # every output that is summed into the edit's 'O' is also named by the edit (and every input removed)
+    from . import C08
+    C08.c087(ctx)   # the verifier accepts a history with a same-file compaction: what an edit adds back is not waited for in trash/
 
 
 def gate_dominates(f, g, pt):
